@@ -60,6 +60,17 @@ def parse_operations(
             continue
         entry = cast(Mapping[str, Any], item)
 
+        if "$ref" in entry:
+            # A referenced Path Item is resolved or rejected: its operations must not vanish from the client silently
+            ref = entry["$ref"]
+            target = None
+            if isinstance(ref, str) and ref.startswith("#/components/pathItems/"):
+                target = context.raw_spec_components.get("pathItems", {}).get(ref.split("/")[-1])
+            if not isinstance(target, Mapping) or "$ref" in target:
+                raise ValueError(f"Path item {path}: unsupported $ref {ref}; bundle the document first")
+            # Sibling fields of the reference take precedence over the referenced Path Item
+            entry = {**target, **{k: v for k, v in entry.items() if k != "$ref"}}
+
         base_params_nodes = cast(List[Mapping[str, Any]], entry.get("parameters", []))
 
         for method, on in entry.items():
@@ -69,11 +80,12 @@ def parse_operations(
                     "summary",
                     "description",
                     "servers",
-                    "$ref",
                 }:
                     continue
                 mu = method.upper()
                 if mu not in HTTPMethod.__members__:
+                    if isinstance(on, Mapping) and not method.startswith("x-"):
+                        raise ValueError(f"unsupported HTTP method or Path Item field '{method}'")
                     continue
 
                 node_op = cast(Mapping[str, Any], on)
